@@ -300,6 +300,7 @@ func runDecoders2(r *Rng, n int, st *Stats, cf *CoqFile) {
 			st.Fail("panic in js_parser.ParseSourceMap", doc, msg, "a source map, nil, or a warning")
 		} else if sm != nil {
 			kind = 2
+			errItems = []int64{int64(len(sm.Sources)), int64(len(sm.Names))}
 			for _, m := range sm.Mappings {
 				name := int64(-1)
 				if m.OriginalName.IsValid() {
